@@ -732,3 +732,43 @@ Proof.
   destruct a as [t| | |n sp]; simpl; auto. constructor; auto.
   simpl in Ha. apply andb_true_iff in Ha as [_ Hsp]. split; [exact Hsp|apply spec_text_ok].
 Qed.
+
+(* ================================================================================================ *)
+(* the property clauses for one statement                                                           *)
+(* ================================================================================================ *)
+Section Clauses.
+Variable arg : Type.
+Variable apply_spec : str -> arg -> option str.
+Variable is_string : arg -> bool.
+Let process := process arg apply_spec is_string.
+
+(* text = what positional formatting of the same arguments with the name-free template gives *)
+Theorem text_clause c (r : tpl) args :
+  wf_tpl r = true -> ok_adj r = true -> first_hole_named r = true -> has_hole r = true -> cache_ok c ->
+  r_text (snd (process c (print r) args)) = sink_text arg apply_spec is_string (positional r) args
+  /\ sink_text arg apply_spec is_string (positional r) args
+     = option_map (fun x => strip_nl (sanitize_if (has_string arg is_string args) x)) (render arg apply_spec r args).
+Proof.
+  intros Hwf Hadj Hfh Hh Hc. unfold process. rewrite (process_print arg apply_spec is_string c r args Hwf Hadj Hfh Hh Hc).
+  split; [reflexivity|].
+  unfold sink_text, populate_text. rewrite (mini_fmt_positional arg apply_spec r args Hwf).
+  destruct (render arg apply_spec r args); reflexivity.
+Qed.
+
+(* pairs = zip (names ++ _i) (per-spec renderings), one per argument, in argument order *)
+Theorem pairs_clause c (r : tpl) args rs :
+  wf_tpl r = true -> ok_adj r = true -> first_hole_named r = true -> has_hole r = true -> cache_ok c ->
+  length (holes r) <= length args ->
+  renders arg apply_spec (named_specs (holes r) (length args)) args rs ->
+  Forall (fun x => has_sep x = false) rs ->
+  r_named (snd (process c (print r) args))
+  = Some (combine (named_keys (holes r) (length args)) (map (sanitize_if (has_string arg is_string args)) rs))
+  /\ length rs = length args
+  /\ length (named_keys (holes r) (length args)) = length args.
+Proof.
+  intros Hwf Hadj Hfh Hh Hc Hlen Hr Hs. unfold process.
+  rewrite (process_print arg apply_spec is_string c r args Hwf Hadj Hfh Hh Hc). simpl.
+  destruct (pairs_general arg apply_spec is_string (holes r) args rs (holes_specs_fine r Hwf) Hlen Hr Hs) as [E _].
+  rewrite E. split; [reflexivity|]. split; [exact (renders_len _ _ _ _ _ Hr)|now apply named_keys_len].
+Qed.
+End Clauses.
